@@ -73,7 +73,9 @@ RULE = ('mixtures of 1-10 database compounds with positive mole/mass vectors spa
         'liquid mixtures (fp_type 1) at T 275-320 K, P 1e5-4e7 Pa, and for inert particles (compressible or not); EVERY unit string '
         'of the ambient table x {float, int, list, 1-D row with one unit, row with a unit per element, column, 2-D} + every standard '
         'unit + xarray datasets; EVERY unit block (pattern, alternative spelling, pattern embedded in a longer label) of the '
-        'chemical-property chain; EVERY compound x column of ChemData/BioData/PJData.csv; a case is non-trivial when its inputs '
+        'chemical-property chain; EVERY compound x column of ChemData/BioData/PJData.csv; histories: a generated user file loaded, re-written '
+        'at the same path (other units, changed value, added row) and loaded again; an entry of the dictionary returned by tamoc_data() '
+        'tuned, then tamoc_data() and FluidMixture again; a case is non-trivial when its inputs '
         'are distinct from every other case (rounded to 12 digits)')
 LEVEL_NOTE = ('theorems over the reals about a hand transcription of the conversion methods (tied to the code by differential '
               'execution) and about tables regenerated from the source; FluidParticle.density is a hypothesis (positive, intensive); '
@@ -749,6 +751,118 @@ def run(ctx, lean_ok):
                             ctx.violation('database-not-positive:%s.%s' % (name, kk), 'critical constant / molecular weight not positive',
                                           {'compound': name, 'column': kk, 'value': v})
         ctx.sample({'compound': 'methane', 'tamoc_data': {k: float(v) for k, v in td[0]['methane'].items() if k in ('M', 'Pc', 'Tc', 'Vc')}})
+
+    # ================= (7) histories: files re-read after a change; returned dictionaries tuned by the caller ==========
+    if T is not None:
+        import tempfile
+        import shutil
+        rules = T['chem_rules']
+        pats = [rule['pat'] for rule in rules if not rule['usesM'] and rule['pat'] not in ('(g/mol)',)]
+        hdir = tempfile.mkdtemp(prefix='c15hist_')
+        nh = ctx.n(6, 60)
+
+        def write_user(path, units, rows):
+            with open(path, 'w') as f:
+                f.write('Compound,M,A,B,C,%\n')
+                f.write(',%s,%%\n' % ','.join(units))
+                f.write(',,,,,%\n')
+                for name, vals in rows:
+                    f.write('%s,%s,\n' % (name, ','.join(repr(v) for v in vals)))
+
+        def judge(stage, path, units, rows, res, case):
+            """the result of load_data against the model's conversion (regenerated chain, through the driver) of the file AS IT IS NOW"""
+            data, du = res
+            names = [n for n, _v in rows]
+            if sorted(data.keys()) != sorted(names):
+                ctx.violation('history:load_data-stale-after-rewrite:compounds', 'load_data of a re-written file does not return the compounds of the file as it is now',
+                              dict(case, stage=stage, in_file=names, returned=sorted(data.keys())))
+            for name, vals in rows:
+                if name not in data:
+                    continue
+                Msi = vals[0] / 1000.                      # M is given in (g/mol)
+                for kk, uu, rw in zip(['M', 'A', 'B', 'C'], units, vals):
+                    got = float(data[name].get(kk, float('nan')))
+
+                    def cbh(o, got=got, kk=kk, uu=uu, rw=rw, name=name, du=du):
+                        if not close(got, o[0], TOL['gen_vs_source']) or du.get(kk) != uncodes(o[1]):
+                            ctx.violation('history:load_data-stale-after-rewrite:value' if stage == 'second load' else 'user-file-value',
+                                          'load_data (%s) does not return the conversion of the value that is in the file now' % stage,
+                                          dict(case, stage=stage, compound=name, column=kk, unit_in_file=uu, raw_in_file=rw, returned=got,
+                                               returned_unit=du.get(kk), model=o[0], model_unit=uncodes(o[1])))
+                    ask(req('Convert.chem', codes(uu), rw, Msi), cbh)
+
+        try:
+            for ih in range(nh):
+                path = os.path.join(hdir, 'user_%d.csv' % ih)
+                names_h = ['cmp_a', 'cmp_b', 'cmp_c'][:r.randint(1, 3)]
+                u1 = ['(g/mol)'] + [r.choice(pats) for _ in range(3)]
+                rows1 = [(nm, [r.uniform(2., 300.)] + [r.choice([r.uniform(-400., 4000.), 10 ** r.uniform(-6, 4)]) for _ in range(3)]) for nm in names_h]
+                case = {'file': path, 'units_first': u1, 'rows_first': rows1}
+                ctx.evaluations += 1
+                ctx.count('history: user file loaded, re-written at the same path, loaded again')
+                ctx.nontrivial.add(('hist', ih) + key12([v for _n, vs in rows1 for v in vs]))
+                try:
+                    write_user(path, u1, rows1)
+                    res1 = chemical_properties.load_data(path)
+                    judge('first load', path, u1, rows1, res1, case)
+                    # the SAME path re-written: other recognised units, a changed value, an added row
+                    u2 = list(u1)
+                    j = r.randint(1, 3)
+                    u2[j] = r.choice([q for q in pats if q != u1[j]])
+                    rows2 = [(nm, list(vs)) for nm, vs in rows1]
+                    rows2[0][1][r.randint(0, 3)] *= r.choice([0.5, 2.0, 1.25])
+                    if r.random() < 0.7:
+                        rows2.append(('cmp_new', [r.uniform(2., 300.)] + [r.uniform(-400., 4000.) for _ in range(3)]))
+                    write_user(path, u2, rows2)
+                    res2 = chemical_properties.load_data(path)
+                    judge('second load', path, u2, rows2, res2, dict(case, units_second=u2, rows_second=rows2))
+                except Exception as e:
+                    ctx.violation('raises:load_data-history', 'load_data raised %s: %s on a generated user file' % (type(e).__name__, e), case)
+        finally:
+            shutil.rmtree(hdir, True)
+
+    if T is not None and db_ok:
+        # the caller tunes a value of the dictionary tamoc_data() returned (the usual way to build user_data): the distributed
+        # database — validated against the model tables in (6) — must be unchanged for every later tamoc_data() and FluidMixture
+        nm_h = ctx.n(4, 40)
+        cols = ['M', 'Pc', 'Tc', 'Vc', 'omega']
+        for ih in range(nm_h):
+            try:
+                before = chemical_properties.tamoc_data()
+                snap = {n_: {k_: float(v_) for k_, v_ in row.items()} for n_, row in before[0].items()}
+                bsnap = {n_: {k_: float(v_) for k_, v_ in row.items()} for n_, row in before[2].items()}
+                name = r.choice(sorted(snap.keys()))
+                col = r.choice(cols)
+                fac = r.choice([0.5, 1.5, 3.0])
+                orig_obj = before[0][name][col]
+                before[0][name][col] = orig_obj * fac            # the caller's tuning
+                bname = r.choice(sorted(bsnap.keys()))
+                borig = before[2][bname]['k_bio']
+                before[2][bname]['k_bio'] = borig + 1.0
+                ctx.evaluations += 1
+                ctx.count('history: entry of the dictionary returned by tamoc_data() tuned, database read again')
+                ctx.nontrivial.add(('hist-db', name, col, fac))
+                case = {'tuned': {'compound': name, 'column': col, 'factor': fac}, 'tuned_bio': {'compound': bname, 'column': 'k_bio', 'added': 1.0}}
+                try:
+                    after_ = chemical_properties.tamoc_data()
+                    changed = [(n_, k_, snap[n_][k_], float(after_[0][n_][k_])) for n_ in snap for k_ in snap[n_]
+                               if n_ in after_[0] and k_ in after_[0][n_] and not (float(after_[0][n_][k_]) == snap[n_][k_])]
+                    changed += [(n_, k_, bsnap[n_][k_], float(after_[2][n_][k_])) for n_ in bsnap for k_ in bsnap[n_]
+                                if n_ in after_[2] and k_ in after_[2][n_] and not (float(after_[2][n_][k_]) == bsnap[n_][k_])]
+                    if changed or sorted(after_[0].keys()) != sorted(snap.keys()):
+                        ctx.violation('history:tamoc_data-returns-tuned-database', 'after the caller changed an entry of the dictionary returned by tamoc_data(), '
+                                      'a later tamoc_data() no longer returns the values of the distributed files', dict(case, changed=changed[:4]))
+                    fm = dbm.FluidMixture([name])
+                    got = float(getattr(fm, col)[0])
+                    if not got == snap[name][col]:
+                        ctx.violation('history:FluidMixture-uses-tuned-database', 'a FluidMixture built after the caller tuned a returned dictionary does not carry '
+                                      'the value of the distributed database', dict(case, attribute=col, got=got, database=snap[name][col]))
+                finally:
+                    # leave no trace for the rest of the run, whatever the implementation does with the object
+                    before[0][name][col] = orig_obj
+                    before[2][bname]['k_bio'] = borig
+            except Exception as e:
+                ctx.violation('raises:tamoc_data-history', 'tamoc_data() / FluidMixture raised %s: %s' % (type(e).__name__, e), {'history': ih})
 
     # ================= driver ==================================================================
     # the driver needs Model.Convert + Gen.UnitsData only: when a THEOREM of Props/C15 no longer checks (lean_ok False)
